@@ -4,6 +4,7 @@ package main
 // obligations, known-finding regions, results.
 
 import (
+	"go/types"
 	"fmt"
 	"hash/fnv"
 	"os"
@@ -152,6 +153,10 @@ type PathSample struct {
 	Model   map[string]uint64 `json:"model,omitempty"`
 	Outcome string            `json:"outcome"`
 	Forks   int               `json:"forks"`
+	// Observed: the engine's prediction of every vsym.Observe value under
+	// Model ("?" where an uninterpreted function is involved); compared with
+	// the natively observed values.
+	Observed []string `json:"observed,omitempty"`
 }
 
 type Results struct {
@@ -660,6 +665,10 @@ func (e *Engine) finishPath() {
 		s := PathSample{Choices: e.choiceStrings(), Outcome: out, Forks: e.ps.forks}
 		if e.sv.Check() == Sat {
 			s.Model = e.currentModel()
+			cache := map[*Term]uint64{}
+			for _, o := range e.ps.observes {
+				s.Observed = append(s.Observed, o.name+"="+e.renderUnder(o.val, s.Model, cache, 0))
+			}
 		}
 		e.res.Samples = append(e.res.Samples, s)
 	}
@@ -761,4 +770,89 @@ func (e *Engine) deepString(v Value, d int) string {
 		return sb.String()
 	}
 	return v.String()
+}
+
+// renderUnder renders a value under a model in the canonical form shared with
+// the native vsym.Observe: integers in decimal, bools, strings quoted, byte
+// slices in hex, other slices and structs element-wise.
+func (e *Engine) renderUnder(v Value, model map[string]uint64, cache map[*Term]uint64, depth int) string {
+	if depth > 4 {
+		return "..."
+	}
+	scalar := func(x Value) (uint64, bool) {
+		if x.T == nil {
+			return x.N, true
+		}
+		return e.tt.Eval(x.T, model, cache)
+	}
+	switch o := v.O.(type) {
+	case nil:
+		n, ok := scalar(v)
+		if !ok {
+			return "?"
+		}
+		return fmt.Sprintf("%d", n)
+	case *Iface:
+		si := e.scalar(o.t)
+		switch si.kind {
+		case 1:
+			n, ok := scalar(o.v)
+			if !ok {
+				return "?"
+			}
+			if n != 0 {
+				return "true"
+			}
+			return "false"
+		case 2:
+			n, ok := scalar(o.v)
+			if !ok {
+				return "?"
+			}
+			if si.signed {
+				return fmt.Sprintf("%d", sext64(n, si.w))
+			}
+			return fmt.Sprintf("%d", n)
+		case 4:
+			return e.renderUnder(o.v, model, cache, depth)
+		}
+		if st, ok := o.t.Underlying().(*types.Slice); ok {
+			sl := o.v.slice()
+			if esi := e.scalar(st.Elem()); esi.kind == 2 && esi.w == 8 {
+				out := "x"
+				for i := 0; i < sl.len; i++ {
+					n, ok := scalar(sl.arr.flat[sl.off+i])
+					if !ok {
+						return "?"
+					}
+					out += fmt.Sprintf("%02x", n)
+				}
+				return out
+			}
+			out := "["
+			for i := 0; i < sl.len; i++ {
+				if i > 0 {
+					out += " "
+				}
+				el := e.arrGet(sl.arr, sl.off+i)
+				out += e.renderUnder(Value{O: &Iface{t: st.Elem(), v: el}}, model, cache, depth+1)
+			}
+			return out + "]"
+		}
+		return "{" + types.TypeString(o.t, nil) + "}"
+	case *Str:
+		if o.b == nil {
+			return fmt.Sprintf("%q", o.s)
+		}
+		buf := make([]byte, len(o.b))
+		for i, b := range o.b {
+			n, ok := scalar(b)
+			if !ok {
+				return "?"
+			}
+			buf[i] = byte(n)
+		}
+		return fmt.Sprintf("%q", string(buf))
+	}
+	return "{?}"
 }
